@@ -259,12 +259,17 @@ Lemma cok_while p c lo g K : cokc g (SK K lo) K -> In lo K -> ~ In p K ->
   cokc (visit_whileG fx c lo g) (SK (p :: K) p) (p :: K).
 Proof.
   intros H Hlo Hp x Hf. unfold visit_whileG.
-  specialize (H (child_enter KLoop x) (fresh_info _ _ _ eq_refl (fresh_incl _ _ _ Hf (incl_tl _ (incl_refl _))))).
-  destruct (g (child_enter KLoop x)) as [[a r] lg]. cbn [g_st g_lg fst snd] in *.
+  set (x0 := if fixF fx then visit_cond c x else x).
+  assert (Ix : info x0 = info x) by (unfold x0; destruct (fixF fx); [apply info_visit_cond | reflexivity]).
+  assert (Hf0 : fresh (child_enter KLoop x0) K).
+  { eapply fresh_info; [cbn [child_enter with_sc info]; exact Ix|]. eapply fresh_incl; [exact Hf | apply incl_tl, incl_refl]. }
+  specialize (H (child_enter KLoop x0) Hf0).
+  destruct (g (child_enter KLoop x0)) as [[a r] lg]. cbn [g_st g_lg fst snd] in *.
   eapply claims_weak; [|apply (SK_up K lo); [apply incl_tl, incl_refl | exact Hp]].
   eapply claims_frame; [exact H | | apply SK_not_p].
   eapply frame_trans; [apply (frame_while_post r c lo a [lo]); left; reflexivity|].
-  eapply frame_trans; [apply frame_child_exit; left; reflexivity | apply frame_info, info_visit_cond].
+  eapply frame_trans; [apply frame_child_exit; left; reflexivity|].
+  destruct (fixF fx); [apply frame_refl | apply frame_info, info_visit_cond].
 Qed.
 
 Lemma cok_do_while p c lo g K : cokc g (SK K lo) K -> In lo K -> ~ In p K ->
@@ -276,7 +281,7 @@ Proof.
   eapply claims_frame; [eapply claims_weak; [|apply (SK_up K lo); [apply incl_tl, incl_refl | exact Hp]]| | apply SK_not_p].
   - eapply claims_frame; [exact H | | apply SK_not_p].
     eapply frame_trans; [apply (frame_dowhile_post fx r c lo a [lo]); left; reflexivity | apply frame_child_exit; left; reflexivity].
-  - unfold dowhile_tail. eapply frame_trans; [|apply frame_info, info_visit_cond].
+  - unfold dowhile_tail. eapply frame_trans; [|apply frame_info, info_dowhile_test].
     match goal with |- frame _ (match ?o with _ => _ end) _ => destruct o as [e|] end;
       [destruct (is_forced e); [apply frame_mark; left; reflexivity | apply frame_refl] | apply frame_refl].
 Qed.
@@ -667,8 +672,11 @@ Proof.
   destruct (with_childG fx KIf p1 g1 (visit_cond c x)) as [[y1 r1] lg1]. exists (child_enter KIf y1).
   rewrite <- (lg_with_child KIf p2 g2 y1). destruct (with_childG fx KIf p2 g2 y1) as [[y2 r2] lg2]. reflexivity.
 Qed.
-Lemma lg_while c lo g x : g_lg (visit_whileG fx c lo g x) = g_lg (g (child_enter KLoop x)).
-Proof. unfold visit_whileG. destruct (g (child_enter KLoop x)) as [[a r] lg]. reflexivity. Qed.
+Lemma lg_while c lo g x : exists y, g_lg (visit_whileG fx c lo g x) = g_lg (g y).
+Proof.
+  unfold visit_whileG. exists (child_enter KLoop (if fixF fx then visit_cond c x else x)).
+  destruct (g (child_enter KLoop (if fixF fx then visit_cond c x else x))) as [[a r] lg]. reflexivity.
+Qed.
 Lemma lg_do_while p c lo g x : g_lg (visit_do_whileG fx p c lo g x) = g_lg (g (child_enter KLoop x)).
 Proof. unfold visit_do_whileG. destruct (g (child_enter KLoop x)) as [[a r] lg]. reflexivity. Qed.
 Lemma lg_for p c lo g x : exists y, g_lg (visit_forG fx p c lo g x) = g_lg (g y).
@@ -745,7 +753,8 @@ Proof.
   intros Hs x.
   destruct s as [ | | | | | | | | | | | | |p0 c0 b0|p0 b0 c0|p0 c0 b0|p0 b0|p0 b0|p0 g0 fp0 pb0 hb0 b0| | | ]; cbn [loop_shape] in Hs; try discriminate.
   - injection Hs as _ <- _. change (anG fx (SWhile p0 c0 b0) x) with (wrap (SWhile p0 c0 b0) (visit_whileG fx c0 (pos b0) (anG fx b0)) x).
-    rewrite lg_wrap, lg_while. eexists. exists []. reflexivity.
+    rewrite lg_wrap. destruct (lg_while c0 (pos b0) (anG fx b0) (set_unreach (pos (SWhile p0 c0 b0)) (stmt_unreachable (SWhile p0 c0 b0) x) x)) as [y Eq].
+    rewrite Eq. eexists. exists []. reflexivity.
   - injection Hs as _ <- _. change (anG fx (SDoWhile p0 b0 c0) x) with (wrap (SDoWhile p0 b0 c0) (visit_do_whileG fx p0 c0 (pos b0) (anG fx b0)) x).
     rewrite lg_wrap, lg_do_while. eexists. exists []. reflexivity.
   - assert (Hb : b0 = b) by (destruct c0; injection Hs as _ Hb _; exact Hb). subst b.
